@@ -2,8 +2,8 @@ package main
 
 // BwsFacts — the synchronisation skeleton of every method of zapcore.BufferedWriteSyncer
 // (zapcore/buffered_write_syncer.go), read with go/parser + go/ast only: in source order, every lock / unlock /
-// deferred unlock, channel close and receive, `go` statement, assignment to a mutex / channel / flag field of the
-// receiver, call of another method of the type, and the control structure around them (if / for / select with its
+// deferred unlock, channel close and receive, `go` statement, assignment to (or local copy of) a mutex / channel /
+// flag field of the receiver, call of another method of the type, and the control structure around them (if / for / select with its
 // cases / immediately invoked function literal / return). Conditions are kept only when they test one of the flags
 // (or a local that holds the result of an immediately invoked function literal); an `if` with nothing relevant
 // inside is dropped. Everything else (bufio calls, size defaults, …) is byte-level behaviour covered by the
@@ -318,6 +318,13 @@ func (w *bwsWalker) stmt(st ast.Stmt) {
 				if c, ok := s.Rhs[i].(*ast.CallExpr); ok {
 					if _, ok := c.Fun.(*ast.FuncLit); ok {
 						w.locals[id.Name] = true
+					}
+				}
+				// a local copy of a mutex / channel / flag field: `flushed = s.flushed`
+				if sel, ok := s.Rhs[i].(*ast.SelectorExpr); ok {
+					if x, ok := sel.X.(*ast.Ident); ok && x.Name == w.recv && w.syncFld[sel.Sel.Name] {
+						w.locals[id.Name] = true
+						w.emit("read %s = %s", id.Name, exprString(sel))
 					}
 				}
 			}
